@@ -175,11 +175,16 @@ func chainGenesis(a *app.Haqq, mutate func(gs haqqtypes.GenesisState)) []byte {
 
 // newChain: fresh application on db, InitChain with the deterministic genesis.
 func newChain(db dbm.DB, mutate func(gs haqqtypes.GenesisState)) *Chain {
+	return newChainCP(db, chainConsensusParams, mutate)
+}
+
+// newChainCP: the same with consensus parameters chosen by the caller (block gas limit).
+func newChainCP(db dbm.DB, cp *tmproto.ConsensusParams, mutate func(gs haqqtypes.GenesisState)) *Chain {
 	a := openApp(db)
 	_, cons := chainValidator()
 	a.InitChain(abci.RequestInitChain{
 		ChainId: chainID, Time: chainGenesisTime, Validators: []abci.ValidatorUpdate{},
-		ConsensusParams: chainConsensusParams, AppStateBytes: chainGenesis(a, mutate), InitialHeight: 1,
+		ConsensusParams: cp, AppStateBytes: chainGenesis(a, mutate), InitialHeight: 1,
 	})
 	ec, err := haqqtypes.ParseChainID(chainID)
 	if err != nil {
